@@ -5,12 +5,12 @@ D=$(readlink -f $1); P=$2; T=${3:-quick}
 cd /repo || exit 2
 if [ -n "$(git status --porcelain --untracked-files=no)" ]; then echo "repo dirty"; exit 2; fi
 if ! git apply --3way "$D/patch.diff" 2>/tmp/seedapply.err; then
-  if ! git apply "$D/patch.diff" 2>>/tmp/seedapply.err; then echo "APPLY-FAILED $(cat /tmp/seedapply.err | head -3)"; git checkout -- . ; exit 3; fi
+  if ! git apply "$D/patch.diff" 2>>/tmp/seedapply.err; then echo "APPLY-FAILED $(cat /tmp/seedapply.err | head -3)"; git reset -q --hard HEAD; exit 3; fi
 fi
 git reset -q 2>/dev/null
 cd /verif
 out=$(VERIF_SEED=${VERIF_SEED:-1} ./check $P $T 2>&1); rc=$?
-cd /repo && git checkout -- . && git clean -fdq -- . 2>/dev/null
+cd /repo && git reset -q --hard HEAD
 echo "$out" | grep -E "^(VIOLATION|HARNESS-BROKEN|INCONCLUSIVE|BUILD-FAILED)" | cut -c1-330 | head -6
 echo "$out" | grep -E "^SUMMARY"
 echo "rc=$rc"
